@@ -1040,7 +1040,10 @@ namespace chaiscript {
           bool in_quote = false;
 
           while (m_position.has_more() && ((*m_position != '\"') || (in_interpolation > 0) || (prev_char == '\\'))) {
-            if (!Eol_()) {
+            if (Eol_()) {
+              // the line break or ';' just consumed is the previous character now: "$;{" opens no interpolation
+              prev_char = 0;
+            } else {
               if (prev_char == '$' && *m_position == '{') {
                 ++in_interpolation;
               } else if (prev_char != '\\' && *m_position == '"') {
